@@ -397,33 +397,20 @@ def lex_cmp(op, xs, ys):
 HEADER = "(* GENERATED by /verif/translator/rs2v.py from /repo's working tree -- do not edit *)\n"
 
 
-def gen_C17(repo):
-    """GossipNodeState::supersedes  ->  gen_supersedes : upd -> upd -> bool"""
-    items = {}
-    default = "(if N.eqb (inc a) (inc b) then N.ltb (ts b) (ts a) else N.ltb (inc b) (inc a))"
-    try:
-        src = strip_comments(read(repo, "tensor_chain/src/gossip.rs"))
-        sig, body = find_fn(src, "supersedes", after=r"impl\s+GossipNodeState\b")
-        m = re.search(r"\(\s*&self\s*,\s*(\w+)\s*:", sig)
-        other = m.group(1) if m else "other"
-        env = Env({
-            "self.incarnation": "(inc a)", "self.timestamp": "(ts a)", "self.health": "(health a)",
-            other + ".incarnation": "(inc b)", other + ".timestamp": "(ts b)", other + ".health": "(health b)",
-        })
-        term = coq(parse_body(body), env)
-        items["supersedes"] = "translated"
-    except Exception as ex:  # translator miss: documented fallback
-        term = default
-        items["supersedes"] = "miss:%s" % ex
-    text = HEADER + (
-        "From NV.Common Require Import Base.\nFrom NV.C17 Require Import Types.\nOpen Scope N_scope.\n\n"
-        "(* tensor_chain/src/gossip.rs  GossipNodeState::supersedes(&self = a, other = b) *)\n"
-        "Definition gen_supersedes (a b : upd) : bool :=\n  %s.\n" % term
-    )
-    return text, items
+def load_generators():
+    """per-property generators live in translator/gen_<ID>.py, each with generate(repo) -> (text, items)"""
+    import importlib.util
+    gens = {}
+    d = os.path.dirname(os.path.abspath(__file__))
+    for f in sorted(os.listdir(d)):
+        if f.startswith("gen_") and f.endswith(".py"):
+            spec = importlib.util.spec_from_file_location(f[:-3], os.path.join(d, f))
+            m = importlib.util.module_from_spec(spec)
+            spec.loader.exec_module(m)
+            gens[f[4:-3]] = m.generate
+    return gens
 
 
-GENERATORS = {"C17": gen_C17}
 
 
 def main(argv):
@@ -438,6 +425,7 @@ def main(argv):
     if "--out" in argv:
         out = argv[argv.index("--out") + 1]
     os.makedirs(out, exist_ok=True)
+    GENERATORS = load_generators()
     ids = sorted(GENERATORS) if pid == "all" else [pid]
     for i in ids:
         if i not in GENERATORS:
